@@ -126,6 +126,9 @@ structure RefSt where
   refreshCnt : Nat
   deriving DecidableEq, Repr, Inhabited
 
+/-- the deadline-exceeded counter is a uint32 that stops at its largest value (F38: it used to wrap to 0) -/
+def satInc (n : Nat) : Nat := if n < 4294967295 then n + 1 else n
+
 inductive Picker where
   | errTF
   | errNoSc
@@ -568,8 +571,8 @@ def detectUnresponsive (s : St) (c : Cfg) (call : Call) (err : ErrKind) : St × 
     | some r =>
       if call.started < r.lastResp then (s, [])
       else
-        let s := modRef s call.slot fun r => { r with deCalls := r.deCalls + 1 }
-        if r.deCalls + 1 ≥ c.uc && r.lastResp < s.now - windowNs c r.refreshCnt then refresh s call.slot
+        let s := modRef s call.slot fun r => { r with deCalls := satInc r.deCalls }
+        if satInc r.deCalls ≥ c.uc && r.lastResp < s.now - windowNs c r.refreshCnt then refresh s call.slot
         else (s, [])
 
 /-- `if scRef := gb.scRefs[sc]; scRef != nil { scRef.affinityCnt += d }` -/
